@@ -40,6 +40,12 @@ CLAIMS["C18"] = dict(
     technique=KANI + "; stream bytes fully symbolic",
     ref="DESIGN.md §5 C18",
 )
+CLAIMS["C10"] = dict(
+    text="Differential bounded model checking of the real AVX2 kernel sources (poulpy-cpu-avx/src/znx_avx/*.rs and the integer kernels of fft64/convolution.rs, compiled into the harness crate by #[path]) against their reference twins: bit-identical outputs for slice lengths 1..9 (SIMD blocks x tails), every radix of the grid with symbolic intra-limb shift, the full i64 range at the carry boundary, all odd Galois elements, ring-switch ratios, convolution-by-constant limb/size grids.",
+    note="Unsupported / mis-modelled intrinsics are replaced by scalar lane models (stubs.rs), each validated against the hardware instruction by a unit test; counterexamples are replayed natively on the real AVX2 instructions. Floating-point AVX kernels, NTT120 AVX primitives and assembly are outside; operation-level identity follows from the shared generic shape code (by reading).",
+    technique=KANI + "; differential harness AVX kernel vs reference kernel",
+    ref="DESIGN.md §5 C10",
+)
 NA = {}
 DEFAULT_NA = "not yet implemented in this revision (work in progress)"
 
